@@ -577,6 +577,7 @@ Definition xor_equal (ka kb : list hkey) : bool :=
   forallb (fun k => Nat.even (length (filter (hkey_eqb k) all))) all.
 
 Definition bond4 (b : vbond) := (vb_i b, vb_j b, vb_type b, vb_order b).
+Definition sort_bonds (l : list vbond) : list vbond := sort_by (fun x y => key_leb (bond_key x) (bond_key y)) l.
 
 (* heap-level pieces the hash needs: _atoms and _residues in LIST order *)
 Definition hash_keys (fl : flags) (h : heap) (t : topo) : option (list hkey) :=
@@ -585,7 +586,7 @@ Definition hash_keys (fl : flags) (h : heap) (t : topo) : option (list hkey) :=
   rs <- mapM (fun l => r <- get_r h l ;; Some (r_name r, r_index r, r_resSeq r, r_seg r)) (t_residues t) ;;
   Some (if f_hash fl
         then [KInts (map vc_index (vt_chains v)); KInts ai;
-              KBonds (map bond4 (sort_by (fun x y => key_leb (bond_key x) (bond_key y)) (vt_bonds v)));
+              KBonds (map bond4 (sort_bonds (vt_bonds v)));
               KNames (map vr_name (v_residues v))]
         else [KInts (map vc_index (vt_chains v)); KInts ai; KBonds (map bond4 (vt_bonds v)); KRes rs]).
 
